@@ -161,6 +161,7 @@ void log_event(int kind, const void* addr, uint64_t a, uint64_t b, int ok, int o
 void user_event(const char* name, const void* p) noexcept {
   if (!controlled()) return; if (g_user_sink) g_user_sink(name, p);
   if (g_out && g_spec.log_steps) g_out->push_back(Event{t_self, K_USER, p, 0, 0, 1, 0, name}); }
+bool g_post_store_points = false;
 bool weak_cas_spurious() noexcept {
   if (!controlled() || !g_spec.spurious_cas || !g_roi) return false;
   if (g_spec.strategy == S_RANDOM || g_spec.strategy == S_PCT) return (g_rng() % 16) == 0; return false; }
